@@ -69,8 +69,12 @@ pub fn run_workers(n: usize, extra_env: &[(&str, String)]) -> Vec<serde_json::Va
             failed = true;
             continue;
         }
-        match std::fs::read_to_string(&out).ok().and_then(|s| serde_json::from_str(&s).ok()) {
-            Some(v) => res.push(v),
+        match std::fs::read_to_string(&out).ok().and_then(|s| serde_json::from_str::<serde_json::Value>(&s).ok()) {
+            Some(v) => {
+                KSCHED_EXECS.fetch_add(v["ksched_executions"].as_u64().unwrap_or(0), std::sync::atomic::Ordering::Relaxed);
+                KSCHED_DIVERGED.fetch_add(v["ksched_diverged"].as_u64().unwrap_or(0), std::sync::atomic::Ordering::Relaxed);
+                res.push(v)
+            }
             None => {
                 eprintln!("worker {i} produced no result (machinery error)");
                 failed = true;
@@ -86,8 +90,20 @@ pub fn run_workers(n: usize, extra_env: &[(&str, String)]) -> Vec<serde_json::Va
 
 pub fn worker_emit(v: &serde_json::Value) {
     let out = std::env::var("VERIF_WORKER_OUT").expect("VERIF_WORKER_OUT");
-    std::fs::write(&out, serde_json::to_string(v).unwrap()).expect("write worker result");
+    // schedule-exploration bookkeeping travels with every worker result
+    let mut v = v.clone();
+    if let Some(o) = v.as_object_mut() {
+        o.insert("ksched_executions".into(), KSCHED_EXECS.load(std::sync::atomic::Ordering::Relaxed).into());
+        o.insert("ksched_diverged".into(), KSCHED_DIVERGED.load(std::sync::atomic::Ordering::Relaxed).into());
+    }
+    std::fs::write(&out, serde_json::to_string(&v).unwrap()).expect("write worker result");
 }
+
+/// Executions run by the ksched explorer in this process / summed over the workers of the last
+/// `run_workers`, and how many of them diverged from their replayed prefix (nondeterminism the
+/// scheduler does not own).
+pub static KSCHED_EXECS: std::sync::atomic::AtomicU64 = std::sync::atomic::AtomicU64::new(0);
+pub static KSCHED_DIVERGED: std::sync::atomic::AtomicU64 = std::sync::atomic::AtomicU64::new(0);
 
 // ---------------------------------------------------------------------------------------------
 // Chunked, abort-tolerant work distribution. Items are global indices 0..total. A child handles
